@@ -139,7 +139,8 @@ def run(ctx):
     # with sequential results, every read monitored, and the recorded access logs validated against KeyThreads.tla
     kops = ptdrv.KEY_OPS[:6]
     kpairs = [((a,), (b,)) for a, b in itertools.combinations_with_replacement(kops, 2)]
-    kpairs += [(("precompute_lazy", "verify"), ("verify",)), (("precompute", "to_string"), ("verify2", "verify")),
+    kpairs += [(("verify",), ("verify2",)), (("verify2",), ("verify2", "verify")), (("verify2",), ("precompute_lazy",)),
+               (("precompute_lazy", "verify"), ("verify",)), (("precompute", "to_string"), ("verify2", "verify")),
                (("verify",), ("precompute_lazy",), ("to_string",))]
     kjobs = []
     for progs in kpairs:
@@ -164,6 +165,25 @@ def run(ctx):
                           {"programs": job[0], "point_scaled": job[1], "generator_table_empty": job[2], "schedule": pr["schedule"],
                            "what": pr["what"]})
     ctx.extra["key_operation_combinations"] = {"combinations": len(kjobs), "hit_cap": khit}
+    # line granularity for keys: one preemption at every line of the key classes' methods (state kept on the key objects
+    # themselves - not on a point - is invisible to the field-access schedules)
+    ksweep = [((("verify",), ("verify2",)), False, False), ((("verify2",), ("verify",)), True, True),
+              ((("verify",), ("precompute_lazy",)), False, False), ((("sign",), ("verify2",)), True, False),
+              ((("to_string",), ("precompute",)), False, False), ((("verify2",), ("precompute",)), False, False, True)]
+    if not quick:
+        ksweep += [(pp, qs, ge) for pp in kpairs if len(pp) == 2 for qs, ge in ((False, True), (True, False))]
+    nks = 0
+    for job, (execs, steps, problems) in zip(ksweep, pool.map(ptdrv.preemption_sweep_keys, ksweep)):
+        ctx.traces += execs
+        ctx.evaluations += steps
+        nks += execs
+        for pr in problems:
+            ctx.violation("%s [line-granularity schedule: %s; shared VerifyingKey%s; programs %s]"
+                          % (pr["what"], pr["schedule"], " built from an order-less point" if len(job) > 3 else "", job[0]),
+                          {"programs": job[0], "point_scaled": job[1], "generator_table_empty": job[2], "schedule": pr["schedule"],
+                           "what": pr["what"], "granularity": "line"})
+    ctx.extra["key_line_granularity_single_preemption_executions"] = nks
+
     def vgroup(gi):
         return core.validate_traces(ctx.workdir, "KeyThreads", "INIT Init\nNEXT Next\nCHECK_DEADLOCK FALSE\nPROPERTY Monotone\n",
                                     kgroups[gi], shards=1, tag="keythreads%d" % gi)
